@@ -133,6 +133,66 @@ def run(ctx):
                     disagreements.append(("pipeline", case, names, got))
     ctx.dist["configurations_with_n_flag"] = nflag_cases
 
+    # ---- 1b. every spelling of the same filter list gives the same value; names in it come from the template's scope ----
+    from harness import c02_filters as _cf
+    n_spell = 0
+    for L in [["f3"], ["h"], ["f3", "f4"], ["wrap('q')", "h"], ["trim", "f3", "h"], ["wrap2('a', 'b')", "f4"]]:
+        plain_src = "${x | %s}" % ", ".join(L)
+        try:
+            plain = Template(plain_src, imports=IMPORTS).render(x=" <a&b> ")
+        except Exception as e:  # noqa
+            plain = "raised %s" % type(e).__name__
+        spellings = [("${x | %s}", ",\n      "), ("${x |\n    %s}", ", "), ("${x | %s # a note\n}", ", "), ("${x | %s,}", ", "), ("${x | %s , }", " ,"),
+                     ("${x |%s}", ","), ("${x\n | %s\n}", ",\n"), ("${x | %s, # note, with a comma\n}", ", ")]
+        forms = [(fmt % sep.join(L), "expression") for fmt, sep in spellings]
+        forms += [('<%%def name="d_()" filter="%s"> <a&b> </%%def>${d_() | n}' % sep.join(L), "def-filter") for sep in (", ", ",\n    ", " , ")]
+        forms += [('<%%def name="d_()" filter="\n%s"> <a&b> </%%def>${d_() | n}' % ", ".join(L), "def-filter"),
+                  ('<%%page expression_filter="%s"/>${x | n, str}${x}' % ",\n  ".join(L), "page-filter")]
+        for src, kind in forms:
+            ctx.evaluations += 1
+            n_spell += 1
+            ctx.nontrivial.add(("spelling", src))
+            try:
+                got = Template(src, imports=IMPORTS).render(x=" <a&b> ")
+            except Exception as e:  # noqa
+                got = "raised %s: %s" % (type(e).__name__, str(e)[:80])
+            want = plain
+            if kind == "page-filter":
+                want = " <a&b> " + plain       # ${x | n, str} writes the value untouched, ${x} goes through the page filters after str
+            if got != want:
+                ctx.violation({"source": src, "rendered": got, "plain_spelling": plain_src, "expected": want},
+                              "a filter list spelled over several lines / with a comment / a trailing comma does not mean what its plain spelling means",
+                              tags=["c02.spelling." + kind])
+    # callables and arguments taken from the render context, also when their names are those of built-in flags
+    for flag in ["n", "x", "h", "u", "trim", "entity", "k"]:
+        for src, want, kw in [("${v | padc(%s)}" % flag, "a<!!", {flag: 2}),
+                              ('<%%def name="d_()" filter="padc(%s)">a<</%%def>${d_() | n}' % flag, "a<!!", {flag: 2}),
+                              ("${v | %s.up}" % flag, "A<", {flag: _cf.Upper()} if hasattr(_cf, "Upper") else None)]:
+            if kw is None:
+                continue
+            ctx.evaluations += 1
+            n_spell += 1
+            try:
+                got = Template(src, default_filters=[]).render(v="a<", padc=lambda c: (lambda s_: s_ + "!" * c), **kw)
+            except Exception as e:  # noqa
+                got = "raised %s: %s" % (type(e).__name__, str(e)[:80])
+            if got != want:
+                ctx.violation({"source": src, "context": sorted(kw), "rendered": got, "expected": want},
+                              "a name used inside a filter list was not taken from the template's scope", tags=["c02.context-names.flag-named"])
+    for src, want in [('<%page expression_filter="cf"/>${v}', "[a<]"), ('<%page expression_filter="cf"/><%def name="d_()">${v}</%def>${d_() | n}', "[a<]"),
+                      ("${v | padc([y for y in [1, 2]][1])}", "a<!!"), ('<%text filter="padc([y for y in [1]][0])">t</%text>', "t!")]:
+        for strict in (False, True):
+            ctx.evaluations += 1
+            n_spell += 1
+            try:
+                got = Template(src, default_filters=[], strict_undefined=strict).render(v="a<", cf=lambda s_: "[%s]" % s_, padc=lambda c: (lambda s_: s_ + "!" * c))
+            except Exception as e:  # noqa
+                got = "raised %s: %s" % (type(e).__name__, str(e)[:80])
+            if got != want:
+                ctx.violation({"source": src, "strict_undefined": strict, "rendered": got, "expected": want},
+                              "a name used inside a filter list was not taken from the template's scope", tags=["c02.context-names"])
+    ctx.generators["filter_list_spellings"] = {"cases": n_spell}
+
     # ---- 2. filter= on defs, blocks and <%text>, and buffer_filters ---------------------------------
     for L in [["f3"], ["f3", "f4"], ["trim", "f3"], ["wrap('q')", "h"], ["n", "f3"]]:
         fl = ", ".join(L)
